@@ -27,6 +27,8 @@ pub struct GenCfg {
     pub fixed_symbols: bool,
     /// generate array equality nodes
     pub array_eq: bool,
+    /// generate constant arrays (btor2 cannot express them outside init)
+    pub array_const: bool,
 }
 
 impl Default for GenCfg {
@@ -43,6 +45,7 @@ impl Default for GenCfg {
             small: false,
             fixed_symbols: false,
             array_eq: true,
+            array_const: true,
         }
     }
 }
@@ -353,7 +356,15 @@ impl<'a> ExprGen<'a> {
                     if !self.cfg.arrays || w > self.cfg.max_data_width {
                         continue;
                     }
-                    let iw = self.rng.range(1, self.cfg.max_index_width as u64) as u32;
+                    let iw = if self.cfg.array_const {
+                        self.rng.range(1, self.cfg.max_index_width as u64) as u32
+                    } else {
+                        let ks: Vec<u32> = self.arr_syms.keys().filter(|k| k.1 == w).map(|k| k.0).collect();
+                        if ks.is_empty() {
+                            continue;
+                        }
+                        *self.rng.pick(&ks)
+                    };
                     let a = self.array(ctx, iw, w, d);
                     let i = self.bv(ctx, iw, d);
                     break ctx.array_read(a, i);
@@ -380,8 +391,15 @@ impl<'a> ExprGen<'a> {
                     if !self.cfg.arrays || !self.cfg.array_eq {
                         continue;
                     }
-                    let iw = self.rng.range(1, self.cfg.max_index_width.min(3) as u64) as u32;
-                    let dw = if self.cfg.small { self.rng.range(1, 2) as u32 } else { self.pick_width().min(self.cfg.max_data_width) };
+                    let (iw, dw) = if self.cfg.array_const {
+                        (self.rng.range(1, self.cfg.max_index_width.min(3) as u64) as u32, if self.cfg.small { self.rng.range(1, 2) as u32 } else { self.pick_width().min(self.cfg.max_data_width) })
+                    } else {
+                        let ks: Vec<(u32, u32)> = self.arr_syms.keys().copied().collect();
+                        if ks.is_empty() {
+                            continue;
+                        }
+                        *self.rng.pick(&ks)
+                    };
                     let a = self.array(ctx, iw, dw, d);
                     let b = self.array(ctx, iw, dw, d);
                     break ctx.equal(a, b);
@@ -409,6 +427,32 @@ impl<'a> ExprGen<'a> {
     }
 
     pub fn array(&mut self, ctx: &mut Context, iw: u32, dw: u32, depth: u32) -> ExprRef {
+        if !self.cfg.array_const {
+            let have = self.arr_syms.get(&(iw, dw)).map(|v| !v.is_empty()).unwrap_or(false);
+            if !have {
+                // cannot be expressed without a constant array; callers only ask for existing array types
+                let d = self.leaf(ctx, dw);
+                return ctx.array_const(d, iw);
+            }
+            if depth == 0 || self.rng.chance(1, 4) {
+                return *self.rng.pick(&self.arr_syms[&(iw, dw)]);
+            }
+            let d = depth - 1;
+            return match self.rng.below(5) {
+                0..=2 => {
+                    let a = self.array(ctx, iw, dw, d);
+                    let i = self.bv(ctx, iw, d);
+                    let x = self.bv(ctx, dw, d);
+                    ctx.array_store(a, i, x)
+                }
+                _ => {
+                    let c = self.bv(ctx, 1, d);
+                    let a = self.array(ctx, iw, dw, d);
+                    let b = self.array(ctx, iw, dw, d);
+                    ctx.ite(c, a, b)
+                }
+            };
+        }
         if depth == 0 || self.rng.chance(1, 4) {
             return if self.rng.chance(1, 3) {
                 let d = self.leaf(ctx, dw);
